@@ -269,10 +269,18 @@ class JobContext(object):
         """differential check of the engine: run the harness natively on a model of this path"""
         from . import interp as _interp
         from .native import run_native, load_harness
-        r, m = self.check_model()
+        from .terms import Not
+        excl = []
+        for k in self.known:
+            kt = self.known_term(k, sym)
+            if kt is not None:
+                excl.append(Not(kt))
+        r, m = self.check_model(*excl)
         if r != "sat":
             return
         inputs = sym.concrete_inputs(m)
+        if any(self.known_matches(k, inputs) for k in self.known):
+            return
         if self.witness is None:
             self.witness = inputs
         fn = load_harness(self.module, self.harness, HARNESS_DIR)
